@@ -199,6 +199,8 @@ type WireGen struct {
 	// value spells one of them (it must still be taken as a value)
 	curKeywords []string
 	curCmd      string // the command being generated (lower case)
+	// NKeysForce, when positive, is the value of a "numkeys" argument (instead of a random 1..3)
+	NKeysForce int
 	// ForceKeyword: the next positional value (not a key) of the vector being generated spells one
 	// of the command's own option keywords
 	ForceKeyword bool
@@ -352,6 +354,9 @@ func (g *WireGen) genComb(c *Comb, malformed float64, nkeys *int) []string {
 		d := strings.ToLower(c.Dst)
 		if d == "nkeys" {
 			n := 1 + g.pick(3)
+			if g.NKeysForce > 0 {
+				n = g.NKeysForce
+			}
 			if bad {
 				n = []int{0, -1, 5}[g.pick(3)]
 			}
